@@ -18,9 +18,9 @@ import (
 func init() {
 	register(&Spec{
 		ID: "C16",
-		Decides: "only the normal-form sentence and one ordering fact: the alias table of the platform normaliser is extracted from its switch statements; every documented alias maps to its canonical value, every value the table can produce is a fixed point of the table (for all strings, because unknown values are only compared, never rewritten), every architecture alias is known to the arch-only parser; " +
-			"a platform handed to the comparator is normalised before it is stored or compared.",
-		NotCovered: "that the chosen entry is runnable, that an exact match wins, that the preference is a strict order independent of list order (statements about the values computed by Compatible/Better over a cross product; seeded change C16-1 is not detected): no sound structural surrogate was found that is not a copy of the functions.",
+		Decides: "the normal-form sentence, one ordering fact and the shape of the selection fold: the alias table of the platform normaliser is extracted from its switch statements; every documented alias maps to its canonical value, every value the table can produce is a fixed point of the table (for all strings, because unknown values are only compared, never rewritten), every architecture alias is known to the arch-only parser; " +
+			"a platform handed to the comparator is normalised before it is stored or compared; the loop that folds Better over the list is left only at exhaustion, and its best-so-far (previous platform and kept entry) is updated together, from the candidate, exactly where Better says yes.",
+		NotCovered: "that the chosen entry is runnable, that an exact match wins, that the preference is a strict order (statements about the values computed by Compatible/Better over a cross product): no sound structural surrogate was found that is not a copy of the functions; seeded change C16-3 (lossy cache key) is not detected.",
 		Run:        runC16,
 	})
 }
